@@ -1,7 +1,7 @@
 CONSTANTS
   CellPool <- MCCells
   CritPool <- MCCrits
-  Crit2Pool <- MCCrits2
+  Crit2Pool <- MCCrits2Q
   MaxCells <- MCMaxCells
   MaxCritsFor <- MCMaxCritsFor
   FreeMax <- MCFreeMax
